@@ -175,6 +175,19 @@ class ImplWorld:
             out.append('1' if (r is not None and r() is not None) else '0')
         return 'live ' + ' '.join(out)
 
+    def op_cmp(self, h1, h2):
+        a, b = self._obj(h1), self._obj(h2)
+        kinds = []
+        for o in (a, b):
+            for kind in KINDS:
+                if isinstance(o, self.classes[kind][0]) and not (kind == 'cplx' and isinstance(o, self.classes['strand'][0])):
+                    kinds.append(kind)
+                    break
+        if len(kinds) != 2 or ({'cplx', 'strand'} >= set(kinds)) is False and kinds[0] != kinds[1]:
+            return 'cmp incomparable'
+        t = lambda x: 'true' if x else 'false'
+        return 'cmp eq=%s lt=%s gt=%s le=%s ge=%s hash=%s' % (t(a == b), t(a < b), t(a > b), t(a <= b), t(a >= b), t(hash(a) == hash(b)))
+
     def op_set_turns(self, h, v):
         self._obj(h).turns = int(v)
         return 'ok'
